@@ -363,8 +363,76 @@ fn main() {
                         if !ok && bad.len() < 3 { bad.push(format!("{name}.{path} on {:?} = {got:?}, expected {w:?}", evs.iter().map(|e| e.get("value").cloned()).collect::<Vec<_>>())) }
                     }
                 }
+                // count / first / last: exact values (first / last are the field of the first / last EVENT, Null when that event lacks it)
+                use varpulis_runtime::aggregation::{Count, First, Last};
+                let field_of = |e: Option<&Event>| e.and_then(|e| e.get("value").cloned()).unwrap_or(Value::Null);
+                let same = |a: &Value, b: &Value| match (a, b) { (Value::Float(x), Value::Float(y)) => x.to_bits() == y.to_bits(), _ => a == b };
+                let exact: Vec<(&str, Box<dyn AggregateFunc>, Value)> = vec![("count", Box::new(Count), Value::Int(len as i64)), ("first", Box::new(First), field_of(evs.first())), ("last", Box::new(Last), field_of(evs.last()))];
+                for (name, agg, w) in exact.iter() {
+                    for (path, got) in [("apply", agg.apply(&evs, Some("value"))), ("apply_refs", agg.apply_refs(&refs, Some("value")))] {
+                        count += 1;
+                        if !same(&got, w) && bad.len() < 3 { bad.push(format!("{name}.{path} on {:?} = {got:?}, expected {w:?}", evs.iter().map(|e| e.get("value").cloned()).collect::<Vec<_>>())) }
+                    }
+                }
             } }
             if bad.is_empty() { println!("OK agg: {count} cases agree with the definitions") } else { println!("REPRODUCED agg: {}", bad.join("; ")) }
+        }
+        "kleene" => {
+            // bounded probe of the Kleene step / completion / enumeration through SaseEngine::process: SEQ(A, B+ [filter], C) (`inner`) and
+            // SEQ(A, B+ [filter]) (`trailing`) with max_kleene_events 1..4 and max_enumeration_results 1..6 over streams A B^n (C), n <= 7.
+            // what = events: no match keeps more than max_kleene_events Kleene events; results: no completion emits more than
+            // max_enumeration_results matches; exact (inner only): the matches of the completion are exactly those of the reference reading
+            // (one match with the first `cap` B events, or one per non-empty admissible subset of them, up to the result cap).
+            use varpulis_runtime::sase::{CompareOp, Predicate, SaseEngine, SasePattern, PatternBuilder};
+            let what = a.get(2).map(|s| s.as_str()).unwrap_or("events");
+            let wher = a.get(3).map(|s| s.as_str()).unwrap_or("inner");
+            let trailing = wher == "trailing";
+            let mut bad: Vec<String> = Vec::new(); let mut count = 0usize;
+            for selfref in [false, true] {
+                for cap in 1u32..=4 {
+                    for maxres in 1usize..=6 {
+                        for n in 1usize..=7 {
+                            for vals in 0..(1usize << n.min(5)) {
+                                let pred = if selfref { Some(Predicate::CompareRef { field: "v".into(), op: CompareOp::Ge, ref_alias: "b".into(), ref_field: "v".into() }) } else { None };
+                                let mut steps = vec![PatternBuilder::event("A"), PatternBuilder::one_or_more(SasePattern::Event { event_type: "B".into(), predicate: pred, alias: Some("b".into()) })];
+                                if !trailing { steps.push(PatternBuilder::event("C")) }
+                                let mut eng = SaseEngine::new(PatternBuilder::seq(steps)).with_max_kleene_events(cap).with_max_enumeration_results(maxres);
+                                eng.process(&Event::new("A"));
+                                let mut outs: Vec<Vec<usize>> = Vec::new();     // stack lengths of the matches of each completion
+                                let mut vs: Vec<i64> = Vec::new();
+                                for i in 0..n {
+                                    let v = if i < 5 { (vals >> i) & 1 } else { 0 } as i64; vs.push(v);
+                                    let r = eng.process(&Event::new("B").with_field("v", Value::Int(v)).with_field("i", Value::Int(i as i64)));
+                                    if !r.is_empty() { outs.push(r.iter().map(|m| m.stack.len()).collect()) }
+                                }
+                                if !trailing { let r = eng.process(&Event::new("C")); if !r.is_empty() { outs.push(r.iter().map(|m| m.stack.len()).collect()) } }
+                                count += 1;
+                                let extra = if trailing { 1 } else { 2 };
+                                let tag = format!("selfref={selfref} max_kleene_events={cap} max_enumeration_results={maxres} B values {vs:?}");
+                                if bad.len() >= 3 { continue }
+                                for o in &outs {
+                                    if what == "results" && o.len() > maxres { bad.push(format!("{tag}: one completion emitted {} matches", o.len())) }
+                                    if what == "events" && o.iter().any(|l| *l > cap as usize + extra) { bad.push(format!("{tag}: a match keeps {} Kleene events", o.iter().max().unwrap() - extra)) }
+                                }
+                                if what == "exact" && !trailing {
+                                    let kept: Vec<i64> = vs.iter().cloned().take(cap as usize).collect();
+                                    let want: Vec<usize> = if !selfref { vec![kept.len() + 2] } else {
+                                        let mut c = 0usize;
+                                        for mask in 1u32..(1 << kept.len()) {
+                                            let sel: Vec<i64> = (0..kept.len()).filter(|i| mask >> i & 1 == 1).map(|i| kept[i]).collect();
+                                            if sel.windows(2).all(|w| w[1] >= w[0]) { c += 1 }
+                                        }
+                                        vec![kept.len() + 2; c.min(maxres)]
+                                    };
+                                    let got: Vec<usize> = outs.last().cloned().unwrap_or_default();
+                                    if outs.len() > 1 || got != want { bad.push(format!("{tag}: completions {:?} (stack length per match), the reference reading gives one completion {:?}", outs, want)) }
+                                }
+                            }
+                        }
+                    }
+                }
+            }
+            if bad.is_empty() { println!("OK kleene {what} {wher}: {count} runs agree") } else { println!("REPRODUCED kleene {what} {wher}: {}", bad.join("; ")); std::process::exit(1) }
         }
         "seqstep" => {
             // bounded probe of "every reported match is a genuine occurrence" through SaseEngine::process: SEQ(S as s, X [filter] as t) and
